@@ -16,6 +16,7 @@ import (
 	"path/filepath"
 	"reflect"
 	"regexp"
+	"sort"
 	"strconv"
 	"strings"
 	"text/template"
@@ -355,6 +356,15 @@ func (c *RootConfig) Initialize(ctx context.Context) error {
 		}
 	}
 
+	// Process nested recursive packages deepest-first so that a discovered
+	// sub-package inherits from its nearest recursive ancestor, independent of
+	// map iteration order.
+	sort.Slice(recursivePackages, func(i, j int) bool {
+		if len(recursivePackages[i]) != len(recursivePackages[j]) {
+			return len(recursivePackages[i]) > len(recursivePackages[j])
+		}
+		return recursivePackages[i] < recursivePackages[j]
+	})
 	for _, recursivePackageName := range recursivePackages {
 		pkgLog := log.With().Str(logging.LogKeyPackagePath, recursivePackageName).Logger()
 		pkgCtx := pkgLog.WithContext(ctx)
